@@ -7,6 +7,7 @@ import (
 	"os"
 	"path/filepath"
 	"sort"
+	"strings"
 	"time"
 
 	"gorgonia.org/tensor"
@@ -69,6 +70,7 @@ var (
 	flagBudgetS   = flag.Float64("budget", 0, "stop starting new runs after this many seconds (0: none)")
 	flagVerbose   = flag.Bool("v", false, "verbose")
 	flagRaceLogP  = flag.String("racelog", "", "GORACE log_path prefix (race builds)")
+	flagSiteFile  = flag.String("sitefile", "", "sites.tsv written by yieldgen (site id -> file:line), for messages")
 )
 
 func writeJSON(path string, v interface{}) error {
@@ -90,6 +92,7 @@ var flagRaceLog string
 func main() {
 	flag.Parse()
 	flagRaceLog = *flagRaceLogP
+	loadSites(*flagSiteFile)
 	tensor.VerifInstall(P.Hooks())
 	tensor.VerifSetYield(func(site uint32) { S.Yield(site) }, func(site uint32) { S.Blocked(site) })
 	S.Reset(*flagSites)
@@ -241,4 +244,22 @@ func doReplay(path string) int {
 	same := rf.Violation != nil && v.Same(rf.Violation)
 	fmt.Printf("REPLAY property=%s kind=%s fail_op=%s step=%d same_as_recorded=%v\n  %s\n", rf.Property, v.Kind, v.FailOp, v.Step, same, v.Detail)
 	return 1
+}
+
+func loadSites(path string) {
+	siteNames = map[uint32]string{}
+	if path == "" {
+		return
+	}
+	b, err := os.ReadFile(path)
+	if err != nil {
+		return
+	}
+	for _, ln := range strings.Split(string(b), "\n") {
+		var id uint32
+		var name string
+		if n, _ := fmt.Sscanf(ln, "%d\t%s", &id, &name); n == 2 {
+			siteNames[id] = name
+		}
+	}
 }
